@@ -383,13 +383,23 @@ def r5(ctx):
     if not ok:
         ctx.violation("optional/brackets/parse_function", ctx.where("parser::Parser::parse_function"),
                       "parse_function does not handle both bracket kinds (%s)" % sorted(ctors))
+    # the condition under which a lexem closes the argument list is evaluated on (closing lexem kind) x (curly mode): it holds
+    # exactly for the closing bracket of the style the call was opened with
+    import interp
     pair_ok = False
-    for x in walk_exprs(fh):
-        if x["k"] == "Bin" and x["op"] == "||":
-            rr = render(x)
-            if "Lexem::Close) && !curly_mode" in rr.replace("(lexem == ", "").replace("(", "") or \
-               ("Close" in rr and "CurlyClose" in rr and "!" in rr):
+    cands = [c for c, _b, _n in conditions(fh) if "Close" in render(c) and "curly" in render(c).lower()]
+    for c in cands:
+        ids = {y["res"]: y.get("name") for y in walk_exprs(c) if y["k"] == "Path" and y.get("rk") == "Local"}
+        try:
+            tbl = {}
+            for lx in ("Close", "CurlyClose", "Comma"):
+                for cm in (False, True):
+                    env = {i: (cm if str(nm).startswith("curly") or "curly" in str(nm) else interp.V("Lexem::" + lx)) for i, nm in ids.items()}
+                    tbl[(lx, cm)] = interp.Interp(prog=ctx.prog).ev(c, env)
+            if all(v == ((lx == "CurlyClose") == cm and lx != "Comma") for (lx, cm), v in tbl.items()):
                 pair_ok = True
+        except interp.Undecided:
+            continue
     ctx.obligation(pair_ok)
     if not pair_ok:
         ctx.violation("optional/brackets/parse_function-pairing", ctx.where("parser::Parser::parse_function"),
